@@ -7,6 +7,8 @@
 From Coq Require Import String.
 From Cvg Require Import Base GoTypes Dump Options Front Builder Gen.
 From Cvg.proofs Require Import BuilderProofs MatchProofs TypedProofs.
+From Cvg Require Import GoLib GoFuns.
+From Cvg.proofs Require Import GenTieProofs.
 Open Scope N_scope.
 
 (** Every expression castNode lets through for a target type t is assignable to
@@ -97,3 +99,14 @@ Proof.
   all: intros H; rewrite <- H in *; vm_compute in Ei, Ee; discriminate.
 Qed.
 Print Assumptions C01_loop_variables_do_not_capture.
+
+(** Tie to the source. [GoGen.FuncToString] is /repo's pkg/generator.FuncToString (with
+    AssignmentToString, ManipulatorToString, the String()/RetError() methods of the
+    assignment kinds, loopVars and Var.FullType), translated statement by statement into
+    gen/GoFuns.v on every run; [lower_function] is the record the builder hands over.  The
+    function text the theorems of this file speak about is therefore what the Go code
+    computes, for every function record. *)
+Theorem C01_text_is_what_the_go_code_prints :
+  forall f, GoGen.FuncToString (lower_function f) = func_to_string f.
+Proof. exact func_to_string_tie. Qed.
+Print Assumptions C01_text_is_what_the_go_code_prints.
